@@ -28,50 +28,63 @@ def sampler(i, seed):
     return f
 
 
+def bounded(c, case, K, seed):
+    import pyvc.driver as drv
+    from pyvc.driver import run_case_concrete
+
+    fails, accepted, rejected, errors = [], 0, 0, []
+    orig = drv.ConcInputs
+    for i in range(K):
+        rec = {}
+        smp = sampler(i, seed)
+
+        def dflt(name, lo, hi, rec=rec, smp=smp):
+            v = smp(name, lo, hi)
+            rec[name] = v
+            return v
+
+        class _CI(orig):
+            def __init__(self, values):
+                orig.__init__(self, values, default=dflt)
+
+        drv.ConcInputs = _CI
+        try:
+            res = run_case_concrete(c, case, {})
+        except Exception as e:  # a contract that cannot be evaluated concretely is a checker error
+            if len(errors) < 3:
+                errors.append("%s: %s (inputs %r)" % (type(e).__name__, e, dict(rec)))
+            continue
+        finally:
+            drv.ConcInputs = orig
+        if "rejected" in res:
+            rejected += 1
+            continue
+        accepted += 1
+        bad = [k for k, v in res["clauses"].items() if v is False]
+        if bad and len(fails) < 5:
+            fails.append({"values": dict(rec), "failed_clauses": bad, "outcome": res["outcome"],
+                          "call": res["call"]})
+    return {"bounded": True, "case": case, "samples": K, "accepted": accepted, "rejected": rejected,
+            "failures": fails, "errors": errors}
+
+
 def main():
     spec = json.loads(sys.stdin.read())
     import dateparser  # the real library (PYTHONPATH=/repo), no instrumentation in this process
 
-    from pyvc.driver import ConcInputs, Rejected, load_contract, run_case_concrete
+    from pyvc.driver import load_contract, run_case_concrete
 
     c = load_contract(spec["module"], spec["contract"])
+    if spec.get("mode") == "bounded-batch":
+        out = []
+        for case in spec["cases"]:
+            out.append(bounded(c, case, spec["samples"], spec.get("seed", 0)))
+        print(json.dumps({"batch": out, "dateparser_file": dateparser.__file__}, default=repr))
+        return
     if spec.get("mode") == "bounded":
-        K, seed = spec["samples"], spec.get("seed", 0)
-        fails, accepted, rejected = [], 0, 0
-        for i in range(K):
-            rec = {}
-            smp = sampler(i, seed)
-
-            def dflt(name, lo, hi, rec=rec, smp=smp):
-                v = smp(name, lo, hi)
-                rec[name] = v
-                return v
-
-            import pyvc.driver as drv
-
-            inp_values = {}
-            # run with an on-demand sampler; record the values actually drawn
-            orig = drv.ConcInputs
-
-            class _CI(orig):
-                def __init__(self, values):
-                    orig.__init__(self, values, default=dflt)
-
-            drv.ConcInputs = _CI
-            try:
-                res = run_case_concrete(c, spec["case"], inp_values)
-            finally:
-                drv.ConcInputs = orig
-            if "rejected" in res:
-                rejected += 1
-                continue
-            accepted += 1
-            bad = [k for k, v in res["clauses"].items() if v is False]
-            if bad and len(fails) < 5:
-                fails.append({"values": dict(rec), "failed_clauses": bad, "outcome": res["outcome"],
-                              "call": res["call"]})
-        print(json.dumps({"bounded": True, "samples": K, "accepted": accepted, "rejected": rejected,
-                          "failures": fails, "dateparser_file": dateparser.__file__}, default=repr))
+        res = bounded(c, spec["case"], spec["samples"], spec.get("seed", 0))
+        res["dateparser_file"] = dateparser.__file__
+        print(json.dumps(res, default=repr))
         return
     res = run_case_concrete(c, spec["case"], spec["values"])
     res["dateparser_file"] = dateparser.__file__
